@@ -2,4 +2,109 @@
 
 package main
 
-func runSchema() {}
+import (
+	"fmt"
+	"go/ast"
+	"go/token"
+	"reflect"
+	"sort"
+	"strings"
+
+	"github.com/uber-go/gopatch/internal/pgo"
+)
+
+// runSchema prints the static structure of go/ast (and pgo.Dots) as the
+// reflection engine sees it: for every struct type reachable from *ast.File
+// the static type of each field, and for every slice type the static type of
+// its elements.  The Lean driver checks every dumped tree against it (wtv).
+//
+//	(schema (struct "ast.CallExpr" (iface "ast.Expr") pos (slice "ast.Expr") pos pos) ... (elem "ast.Expr" (iface "ast.Expr")) ...)
+func runSchema() {
+	structs := map[string][]string{}
+	elems := map[string]string{}
+	var visit func(t reflect.Type)
+	tag := func(t reflect.Type) string {
+		if t == reflect.TypeOf(token.Pos(0)) {
+			return "pos"
+		}
+		switch t.Kind() {
+		case reflect.String:
+			return "str"
+		case reflect.Bool:
+			return "bool"
+		case reflect.Int, reflect.Int8, reflect.Int16, reflect.Int32, reflect.Int64,
+			reflect.Uint, reflect.Uint8, reflect.Uint16, reflect.Uint32, reflect.Uint64:
+			return "int"
+		case reflect.Ptr:
+			return fmt.Sprintf("(ptr %q)", t.Elem().String())
+		case reflect.Interface:
+			return fmt.Sprintf("(iface %q)", t.String())
+		case reflect.Slice:
+			return fmt.Sprintf("(slice %q)", t.Elem().String())
+		}
+		return "str"
+	}
+	opaque := map[reflect.Type]bool{
+		reflect.TypeOf(ast.CommentGroup{}): true, reflect.TypeOf(ast.Object{}): true, reflect.TypeOf(ast.Scope{}): true,
+	}
+	visit = func(t reflect.Type) {
+		switch t.Kind() {
+		case reflect.Ptr:
+			visit(t.Elem())
+		case reflect.Slice:
+			if _, ok := elems[t.Elem().String()]; !ok {
+				elems[t.Elem().String()] = tag(t.Elem())
+				visit(t.Elem())
+			}
+		case reflect.Struct:
+			name := t.String()
+			if _, ok := structs[name]; ok || opaque[t] {
+				return
+			}
+			var fs []string
+			for i := 0; i < t.NumField(); i++ {
+				fs = append(fs, tag(t.Field(i).Type))
+			}
+			structs[name] = fs
+			for i := 0; i < t.NumField(); i++ {
+				visit(t.Field(i).Type)
+			}
+		}
+	}
+	// every concrete node type: the interfaces Expr, Stmt, Decl, Spec are closed over these
+	roots := []any{
+		&ast.File{}, &pgo.Dots{}, &ast.Comment{},
+		&ast.BadExpr{}, &ast.Ident{}, &ast.Ellipsis{}, &ast.BasicLit{}, &ast.FuncLit{}, &ast.CompositeLit{}, &ast.ParenExpr{},
+		&ast.SelectorExpr{}, &ast.IndexExpr{}, &ast.IndexListExpr{}, &ast.SliceExpr{}, &ast.TypeAssertExpr{}, &ast.CallExpr{},
+		&ast.StarExpr{}, &ast.UnaryExpr{}, &ast.BinaryExpr{}, &ast.KeyValueExpr{}, &ast.ArrayType{}, &ast.StructType{},
+		&ast.FuncType{}, &ast.InterfaceType{}, &ast.MapType{}, &ast.ChanType{},
+		&ast.BadStmt{}, &ast.DeclStmt{}, &ast.EmptyStmt{}, &ast.LabeledStmt{}, &ast.ExprStmt{}, &ast.SendStmt{}, &ast.IncDecStmt{},
+		&ast.AssignStmt{}, &ast.GoStmt{}, &ast.DeferStmt{}, &ast.ReturnStmt{}, &ast.BranchStmt{}, &ast.BlockStmt{}, &ast.IfStmt{},
+		&ast.CaseClause{}, &ast.SwitchStmt{}, &ast.TypeSwitchStmt{}, &ast.CommClause{}, &ast.SelectStmt{}, &ast.ForStmt{}, &ast.RangeStmt{},
+		&ast.BadDecl{}, &ast.GenDecl{}, &ast.FuncDecl{}, &ast.ImportSpec{}, &ast.ValueSpec{}, &ast.TypeSpec{},
+		&ast.Field{}, &ast.FieldList{},
+	}
+	for _, r := range roots {
+		visit(reflect.TypeOf(r))
+	}
+	var sb strings.Builder
+	sb.WriteString("(schema")
+	var names []string
+	for n := range structs {
+		names = append(names, n)
+	}
+	sort.Strings(names)
+	for _, n := range names {
+		fmt.Fprintf(&sb, " (struct %q %s)", n, strings.Join(structs[n], " "))
+	}
+	names = names[:0]
+	for n := range elems {
+		names = append(names, n)
+	}
+	sort.Strings(names)
+	for _, n := range names {
+		fmt.Fprintf(&sb, " (elem %q %s)", n, elems[n])
+	}
+	sb.WriteString(")")
+	fmt.Println(sb.String())
+}
